@@ -1003,3 +1003,32 @@ def rule_raw_bytes(S, res):
     res.count("uses_of_raw_message_bytes", n)
     if not bad:
         res.ok("R1.raw", "channel", "", "%d uses of the raw message bytes in the receive primitives: passed to the decoder / error mapping only" % n)
+
+
+def rule_wire_decoding(S, res):
+    """R1.serde: the wire types are decoded by serde's derived implementations only.  The derived decoding of a
+    `Vec<T>` reserves at most a capped amount and grows with the bytes actually present; a hand-written
+    `Deserialize` that asks the decoder for a byte buffer / string (`deserialize_byte_buf`, `deserialize_bytes`,
+    `deserialize_string`) makes bincode allocate the length a peer *claims* before any byte of it has arrived."""
+    fg = S.fg
+    BAD = ("deserialize_byte_buf", "deserialize_bytes", "deserialize_string", "deserialize_str")
+    n = 0
+    bad = 0
+    for k, b in fg.bodies.items():
+        if b.krate != "polytune":
+            continue
+        for bi, t in b.calls():
+            names = callee_names(t)
+            if not names:
+                continue
+            tail = names[0].rsplit("::", 1)[-1]
+            if "serde" in names[0] and tail.startswith("deserialize"):
+                n += 1
+                if tail in BAD and bi in b.live_blocks():
+                    bad += 1
+                    res.bad("R1.serde", "%s|%s" % (b.owner.rsplit("::", 2)[-2] if b.owner.count("::") > 1 else b.owner, tail),
+                            "a wire type is decoded with `%s`: the decoder allocates the length prefix a peer sends before the bytes exist (memory out of proportion to the bytes received)" % tail, where(b, bi),
+                            key="R1.serde|%s" % tail)
+    res.count("serde_deserializer_calls_in_engine", n)
+    if not bad:
+        res.ok("R1.serde", "wire-types", "", "no hand-written byte-buffer / string decoding of wire types (%d deserializer calls, all from derives)" % n)
